@@ -244,7 +244,11 @@ class ArrayUnionMatcher(CombinationMatcher):
         return self._docnum < self._doccount
 
     def max_quality(self):
-        return max(m.max_quality() for m in self._submatchers)
+        # Scores of the sub-matchers are added and boosted; the part that has
+        # already been read is bounded by the array itself
+        later = sum(m.max_quality() for m in self._submatchers
+                    if m.is_active()) * self._boost
+        return max(later, max(self._a))
 
     def block_quality(self):
         return max(self._a)
